@@ -48,13 +48,23 @@ def tiny_layout():
     return {"regs": regs}
 
 
+def width_layout(r):
+    """Every register width class that is not a power of two (24 .. 96 bits), plain and with reversed byte order, with and without bit-fields."""
+    regs = []
+    for k, width in enumerate((24, 40, 48, 56, 72, 96)):
+        regs.append(mk_leaf(f"W{width}", width, tile_fields(r, f"W{width}", width) if k % 2 else []))
+        regs.append(mk_leaf(f"V{width}", width, tile_fields(r, f"V{width}", width) if not k % 2 else []))
+        regs[-1]["reverse"] = True
+    return {"regs": regs}
+
+
 def random_layout(r, big=False):
     regs = []
     n_top = r.randrange(2, 5)
     for t in range(n_top):
         kind = r.choice(["leaf", "leaf", "group"])
         if kind == "leaf":
-            width = r.choice([8, 16, 32, 32, 64] + ([128, 256, 512] if big else []))
+            width = r.choice([8, 16, 32, 32, 64, 24, 40, 48, 56] + ([128, 256, 512, 72, 96] if big else []))          # every multiple of 8 is a legal width
             regs.append(mk_leaf(f"REG{t}", width, tile_fields(r, f"REG{t}", width)))
             # a plain register with reversed byte order (with or without bit-fields): the JSON specification cannot declare it, the Register API can
             regs[-1]["reverse"] = width > 8 and r.random() < 0.3
@@ -119,11 +129,15 @@ def to_spsdk(layout):
 class Real:
     """A real Registers object for a layout + the operations of the spec."""
 
-    def __init__(self, layout, idx):
+    def __init__(self, layout, idx, variant=0):
         from spsdk.utils.registers import Registers
 
         self.layout = layout
         self.idx = idx
+        # how the register file comes into being (not part of the abstract state - the same behaviour must result): loaded from the JSON specification,
+        # or built register by register with the public classes and add_register(); byte order of the file big or little
+        self.route = "api" if variant % 2 else "spec"
+        self.little = bool((variant // 2) % 2)
         self.path = os.path.join(scratch(), f"c11-layout-{sha(layout)}.json")
         if not os.path.exists(self.path):
             spec, groups = to_spsdk(layout)
@@ -136,8 +150,30 @@ class Real:
         self.regs = self.fresh()
 
     def fresh(self):
-        regs = self.Registers(family="VerifDevice", feature="verif")
-        regs._load_spec(self.path, grouped_regs=self.groups)
+        from spsdk.utils.misc import Endianness
+
+        regs = self.Registers(family="VerifDevice", feature="verif", base_endianness=Endianness.LITTLE if self.little else Endianness.BIG)
+        if self.route == "spec":
+            regs._load_spec(self.path, grouped_regs=self.groups)
+        else:
+            # the same specification, every register created on its own (Register.create_from_spec) and handed to the file through add_register()
+            spec = json.load(open(self.path))
+            for grp in spec.get("groups", []):
+                for sreg in grp.get("registers", []):
+                    reg = regs.register_class.create_from_spec(sreg)
+                    group = regs._get_register_group(reg, self.groups)
+                    if group:
+                        try:
+                            greg = regs.get_reg(group["uid"])
+                        except Exception:  # noqa: BLE001 - first member of the group
+                            greg = regs.register_class(name=group["name"], offset=int(str(group.get("offset", 0)), 0), width=int(str(group.get("width", 0)), 0), uid=group["uid"],
+                                                       description=group.get("description", f"Group of {group['name']} registers."),
+                                                       reverse=bool(group.get("reversed", False)), config_as_hexstring=group.get("config_as_hexstring", False),
+                                                       reverse_subregs_order=group.get("reverse_subregs_order", False), alt_widths=group.get("alternative_widths"))
+                            regs.add_register(greg)
+                        greg._add_group_reg(reg)
+                    else:
+                        regs.add_register(reg)
         for reg in self.layout["regs"]:
             if reg["kind"] == "leaf" and reg["reverse"]:
                 regs.find_reg(reg["name"], include_group_regs=True).reverse = True      # = Register(..., reverse=True); set before any value is written
@@ -385,11 +421,21 @@ def scenario_behaviours(layouts, r):
                 k, f = r.choice(fl)
                 out.append({"lay": li, "hist": [{"a": "Query", "q": "config"}, {"a": "SetField", "r": sub, "f": k, "v": bits_of(r.getrandbits(f["width"]) | 1)},
                                                 {"a": "Query", "q": "config"}, {"a": "ConfigRoundTrip", "diff": True}, {"a": "ExportParse"}]})
+        # every plain register: values of every significant-byte count (1 .. width / 8 bytes), written as a whole (processed and raw), read back, written
+        # out as configuration and loaded again, exported and parsed
+        for gi, g in enumerate(L, 1):
+            if g["kind"] != "leaf" or g["parent"] or g["width"] < 16:
+                continue
+            w = g["width"]
+            for nb in sorted({1, 2, 3, w // 8 - 1, w // 8}):
+                v0 = bits_of((r.getrandbits(8 * nb) | (0x81 << (8 * (nb - 1)))) & ((1 << w) - 1))
+                out.append({"lay": li, "hist": [{"a": "SetReg", "r": gi, "v": v0, "raw": nb % 2 == 0}, {"a": "Query", "q": "config"}, {"a": "ConfigRoundTrip", "diff": False},
+                                                {"a": "ExportParse"}, {"a": "SetReg", "r": gi, "v": v0, "raw": nb % 2 == 1}, {"a": "ConfigRoundTrip", "diff": True}]})
     return out
 
 
 def replay_behaviour(layouts, beh, tid, r):
-    real = Real(layouts[beh["lay"] - 1], beh["lay"])
+    real = Real(layouts[beh["lay"] - 1], beh["lay"], variant=tid)          # the four ways of making the register file, in rotation
     evs = [{"a": "Init", "post": real.projection()}]
     for a in beh["hist"]:
         try:
@@ -397,7 +443,7 @@ def replay_behaviour(layouts, beh, tid, r):
         except Exception as e:  # noqa: BLE001 - a crash of a public operation is an observation, decided by the spec (no matching action)
             evs.append({"a": "Crash", "of": a["a"], "exc": type(e).__name__, "msg": str(e)[:200]})
             break
-    return {"id": tid, "lay": beh["lay"], "ev": evs}
+    return {"id": tid, "lay": beh["lay"], "ev": evs, "made": f"{real.route}/{'little' if real.little else 'big'}-endian"}
 
 
 def arg_class(layout, ev):
@@ -488,7 +534,7 @@ def run(tier):
 
     # ---- GEN 2: simulated long behaviours on generated layouts
     n_lay = 6 if tier == "quick" else 40
-    layouts2 = [random_layout(r, big=(i % 2 == 1)) for i in range(n_lay)]
+    layouts2 = [random_layout(r, big=(i % 2 == 1)) for i in range(n_lay)] + [width_layout(r)]
     lay_file = os.path.join(sc, "c11-layouts.json")
     json.dump(layouts2, open(lay_file, "w"))
     num = 30 if tier == "quick" else 600
@@ -530,7 +576,8 @@ def replay(path):
     f = os.path.join(sc, "replay-layout.json")
     json.dump([layout], open(f, "w"))
     beh = {"lay": 1, "hist": [{k: x for k, x in e.items() if k not in ("post", "refused")} for e in w["trace"]["ev"][1:] if e["a"] != "Crash"]}
-    t = replay_behaviour([layout], beh, 0, rng(PROP, "replay"))
+    tid = w["trace"].get("id", 0)
+    t = replay_behaviour([layout], beh, tid if isinstance(tid, int) else 0, rng(PROP, "replay"))     # the trace id carries the construction variant
     rej, _ = tlc.tv("C11", "RegFileTrace", [t], env={"LAYOUT_FILE": f, "MENU": "full"})
     if rej:
         say(f"VIOLATION property=C11 replay={path}")
